@@ -528,6 +528,35 @@ func allocAliases(al *ssa.Alloc) []ssa.Instruction {
 	return out
 }
 
+// structHoldsArgsSlice: v is (an interface holding) a freshly built struct one
+// of whose fields was assigned a slice that belongs to an argument — the
+// sort.Interface wrapper idiom: Swap then permutes the caller's array.
+func structHoldsArgsSlice(v ssa.Value, args ssa.Value) bool {
+	if mi, ok := v.(*ssa.MakeInterface); ok {
+		v = mi.X
+	}
+	al, ok := throughLocal(v).(*ssa.Alloc)
+	if !ok {
+		return false
+	}
+	for _, ref := range allocAliases(al) {
+		fa, ok := ref.(*ssa.FieldAddr)
+		if !ok {
+			continue
+		}
+		for _, r2 := range *fa.Referrers() {
+			st, ok := r2.(*ssa.Store)
+			if !ok || st.Addr != ssa.Value(fa) {
+				continue
+			}
+			if _, isSlice := st.Val.Type().Underlying().(*types.Slice); isSlice && derivedFromArgs(st.Val, args, 0) {
+				return true
+			}
+		}
+	}
+	return false
+}
+
 func rulePureArgs(p *Program, r *Reporter) {
 	muts := mutatorMethods(p)
 	mutName := map[string]bool{}
@@ -563,7 +592,7 @@ func rulePureArgs(p *Program, r *Reporter) {
 						if cal := cc.StaticCallee(); cal != nil {
 							full := calleeFullName(&cc)
 							if strings.HasPrefix(full, "sort.") || strings.HasPrefix(full, "slices.Sort") || strings.HasPrefix(full, "slices.Reverse") {
-								if len(cc.Args) > 0 && derivedFromArgs(cc.Args[0], argsV, 0) {
+								if len(cc.Args) > 0 && (derivedFromArgs(cc.Args[0], argsV, 0) || structHoldsArgsSlice(cc.Args[0], argsV)) {
 									bad, badPos = "sorts/reverses in place a slice that belongs to an argument ("+full+")", x.Pos()
 								}
 							}
